@@ -55,6 +55,8 @@ def kinds() -> dict[str, dict]:
         "e16": {"fam": "Enum", "size": 2, "align": 2, "enum_of": "u16"}, "fl8": {"fam": "Flag", "size": 1, "align": 1, "enum_of": "u8"},
         "e24": {"fam": "Enum", "size": 3, "align": 4, "enum_of": "i24"},
         "p32": {"fam": "Pointer", "size": 4, "align": 4, "elem": "u8"},
+        "p32b": {"fam": "Pointer", "size": 4, "align": 4, "elem": "u32"},  # same layout and generated text as p32, another target type
+        "e16b": {"fam": "Enum", "size": 2, "align": 2, "enum_of": "u16"},  # a second enum over the same storage type
         "u16[3]": {"fam": "Array", "size": 6, "align": 2, "elem": "u16", "n": 3}, "i24[2]": {"fam": "Array", "size": 6, "align": 4, "elem": "i24", "n": 2},
         "e16[2]": {"fam": "Array", "size": 4, "align": 2, "elem": "e16", "n": 2}, "e24[2]": {"fam": "Array", "size": 6, "align": 4, "elem": "e24", "n": 2},
         "p32[2]": {"fam": "Array", "size": 8, "align": 4, "elem": "p32", "n": 2}, "f32[2]": {"fam": "Array", "size": 8, "align": 4, "elem": "f32", "n": 2},
@@ -79,7 +81,7 @@ def kinds() -> dict[str, dict]:
     return k
 
 
-FIELD_KINDS = ["u8", "u16", "u32", "u64", "i16", "f32", "i24", "ch", "wc", "c5", "w3", "e16", "fl8", "e24", "p32", "u16[3]", "i24[2]", "e16[2]", "e24[2]", "p32[2]",
+FIELD_KINDS = ["u8", "u16", "u32", "u64", "i16", "f32", "i24", "ch", "wc", "c5", "w3", "e16", "fl8", "e24", "p32", "p32b", "e16b", "u16[3]", "i24[2]", "e16[2]", "e24[2]", "p32[2]",
                "f32[2]", "ch[1]", "void", "st", "st[2]", "u8[2][2]", "dyn", "dyn4", "dync", "u8:3", "u8:5", "u16:4", "u16:12", "u32:12", "e16:4", "ch:4", "u16:0", "i24:4", "i24:20", "u32@8", "u8@1"]
 LONGER = [("u8", "u32", "u16"), ("u8:3", "u8:5", "u8:3"), ("u16:4", "u16:12", "u16:4"), ("u8", "dyn", "u32", "u8"), ("u8:3", "u16:4", "u8:3", "u32"),
           ("c5", "u64", "u8", "e16:4", "u16:4"), ("u8", "i24", "u8", "u64"), ("u8:3", "dyn4", "u8:3", "u32"), ("u8", "dyn", "u8:3", "u8:5", "u16"),
